@@ -114,7 +114,7 @@ Qed.
 (* VerifyCollateralizationRatio accepted: value(out) <= (ltv + 10^-18) * value(in); the extra unit
    is the rounding of the Quo that forms the ratio *)
 Lemma verify_cr_le cfg st ain ai aout ao ltv :
-  cfg_wf cfg -> PricesOk (prices st) -> 0 < ain -> 0 <= ltv ->
+  cfg_wf cfg -> PricesOk (prices st) -> 0 <= ain -> 0 <= ltv ->
   verify_cr cfg st ain ai aout ao ltv = Ok tt ->
   exists vin vout, calc_price cfg st ai ain = Ok vin /\ calc_price cfg st ao aout = Ok vout /\
                    0 < vin /\ vout * P18 <= (ltv + 1) * vin.
